@@ -630,6 +630,9 @@ func (s *socket) Close(discard bool) {
 
 	if length := s.writeBuffer.Len(); length > 0 {
 		socket_log.Debug("there are %d remaining packets in the buffer, waiting for the 'drain' event", length)
+		if verifhook.Enabled {
+			verifhook.Point("socket.Close.beforeDrainWait", s)
+		}
 		var onDrain events.Listener
 		onDrain = func(...any) {
 			// the drain of a flush that was already under way says nothing about packets
